@@ -380,6 +380,7 @@ type c06Replay struct {
 	Engine   string         `json:"engine"`
 	Seed     uint64         `json:"seed"`
 	Trace    int            `json:"trace_index"`
+	Inject   int            `json:"enospc_at_write,omitempty"`
 	NOps     int            `json:"nops"`
 	CrashAt  int            `json:"crash_after_event"`
 	DirCh    map[string]int `json:"dir_ops_persisted"`
@@ -408,13 +409,21 @@ func c06BuildDriver(scratch string) string {
 	return bin
 }
 
-func c06Trace(bin, scratch string, seed uint64, idx, nops int) ([]*c06Event, string) {
+// c06Trace runs the workload under strace. inject > 0 makes the inject-th
+// write system call of the process fail with ENOSPC (strace's syscall fault
+// injection): a full disk in the middle of an operation.
+func c06Trace(bin, scratch string, seed uint64, idx, nops int, inject int) ([]*c06Event, string) {
 	root := filepath.Join(scratch, fmt.Sprintf("root%d", idx))
+	os.RemoveAll(root)
 	os.MkdirAll(root, 0755)
 	tr := filepath.Join(scratch, fmt.Sprintf("trace%d.txt", idx))
-	cmd := exec.Command("strace", "-f", "-y", "-s", "96", "-e", "signal=none",
-		"-e", "trace=openat,open,creat,write,pwrite64,fsync,fdatasync,rename,renameat,renameat2,unlink,unlinkat,close,ftruncate,faccessat,faccessat2,access,link,linkat,sync,syncfs",
-		"-o", tr, bin, root, strconv.FormatUint(seed*1000+uint64(idx), 10), strconv.Itoa(nops))
+	args := []string{"-f", "-y", "-s", "96", "-e", "signal=none",
+		"-e", "trace=openat,open,creat,write,pwrite64,fsync,fdatasync,rename,renameat,renameat2,unlink,unlinkat,close,ftruncate,faccessat,faccessat2,access,link,linkat,sync,syncfs"}
+	if inject > 0 {
+		args = append(args, "-e", fmt.Sprintf("inject=write:error=ENOSPC:when=%d", inject))
+	}
+	args = append(args, "-o", tr, bin, root, strconv.FormatUint(seed*1000+uint64(idx), 10), strconv.Itoa(nops))
+	cmd := exec.Command("strace", args...)
 	env := []string{}
 	for _, kv := range os.Environ() {
 		if strings.HasPrefix(kv, "SNAPD_") || strings.HasPrefix(kv, "GOMAXPROCS=") {
@@ -464,6 +473,12 @@ func c06Explore(evs []*c06Event, root string, seed uint64, traceIdx, nops int, s
 				n, _ := strconv.ParseInt(p[3], 10, 64)
 				m.finalLen[i] = n
 			}
+			if len(p) == 3 && p[0] == "op" && p[2] == "failed" {
+				// the operation reported an error: nothing it wrote is a complete version
+				i, _ := strconv.Atoi(p[1])
+				m.finalLen[i] = -1
+				st.faults["operation-failed-with-enospc"]++
+			}
 		}
 	}
 	started := false
@@ -491,7 +506,7 @@ func c06Explore(evs []*c06Event, root string, seed uint64, traceIdx, nops int, s
 				m.curOp, _ = strconv.Atoi(p[1])
 				opStartEvent = ev.idx
 				st.opKinds[p[3]]++
-			case len(p) == 4 && p[0] == "op" && p[2] == "end":
+			case len(p) == 4 && p[0] == "op" && p[2] == "end", len(p) == 3 && p[0] == "op" && p[2] == "failed":
 				m.curOp = -2
 			}
 			continue
@@ -719,7 +734,7 @@ func runC06(s *spec, tier string, seed uint64, scratch string) int {
 		if err := json.Unmarshal(b, &rp); err != nil {
 			die(2, "%v", err)
 		}
-		evs, root := c06Trace(bin, scratch, rp.Seed, rp.Trace, rp.NOps)
+		evs, root := c06Trace(bin, scratch, rp.Seed, rp.Trace, rp.NOps, rp.Inject)
 		st := &c06Stats{fps: map[string]struct{}{}, faults: map[string]int64{}, opKinds: map[string]int64{}}
 		found := c06Explore(evs, root, rp.Seed, rp.Trace, rp.NOps, st, &rp, 1)
 		for _, f := range found {
@@ -742,11 +757,39 @@ func runC06(s *spec, tier string, seed uint64, scratch string) int {
 	st := &c06Stats{fps: map[string]struct{}{}, faults: map[string]int64{}, opKinds: map[string]int64{}}
 	var all []*c06Replay
 	for i := 0; i < ntraces; i++ {
-		evs, root := c06Trace(bin, scratch, seed, i, nops)
+		evs, root := c06Trace(bin, scratch, seed, i, nops, 0)
 		found := c06Explore(evs, root, seed, i, nops, st, nil, limit)
 		all = append(all, found...)
 		st.traces++
 		os.RemoveAll(root)
+		// every third workload is run again with the disk filling up at a seeded write
+		if i%3 == 0 {
+			writesBefore, writesAfter, started := 0, 0, false
+			for _, ev := range evs {
+				if ev.name == "marker" && ev.path == "start" {
+					started = true
+				}
+				if ev.name == "write" || ev.name == "pwrite64" {
+					if started {
+						writesAfter++
+					} else {
+						writesBefore++
+					}
+				}
+			}
+			if writesAfter > 0 {
+				k := writesBefore + 1 + int((seed*31+uint64(i)*17)%uint64(writesAfter))
+				evs2, root2 := c06Trace(bin, scratch, seed, i, nops, k)
+				found2 := c06Explore(evs2, root2, seed, i, nops, st, nil, limit)
+				for _, f := range found2 {
+					f.Inject = k
+				}
+				all = append(all, found2...)
+				st.traces++
+				st.faults["enospc-injected-traces"]++
+				os.RemoveAll(root2)
+			}
+		}
 		if len(all) > 0 && i >= 1 {
 			break
 		}
